@@ -1,0 +1,25 @@
+//go:build !verif
+
+// Package verifhook holds verification hooks. Without the "verif" build tag
+// every function is an empty inlineable stub.
+package verifhook
+
+import "github.com/dgraph-io/badger/v4"
+
+// Point marks a named point in the code where a test harness may crash or pause the process.
+func Point(name string) {}
+
+// Fault returns an injected error at a named point when a test harness has armed it.
+func Fault(name string) error { return nil }
+
+// Acquire records that a lock is about to be taken.
+func Acquire(kind string, id string) {}
+
+// Acquired records that a lock has been taken.
+func Acquired(kind string, id string) {}
+
+// Release records that a lock has been released.
+func Release(kind string, id string) {}
+
+// TuneBadger lets a test harness adjust the database options.
+func TuneBadger(opts *badger.Options) {}
